@@ -355,6 +355,7 @@ def run(prog, chk):
     c02.text_field_rules(prog, chk, "R6", "R7")
     c02.column_advance_rule(prog, chk, "R8")
     c02.name_line_rule(prog, chk, "R10")
+    c02.first_line_rule(prog, chk, "R11")
 
     r9 = chk.rule("R9-validation-failure-not-lost", "once cif_validate_cif11_characters has refused a code, name or value, the writing "
                   "function does not return CIF_OK / CIF_TRAVERSE_CONTINUE: the refusal is not overwritten by a later, successful "
